@@ -420,84 +420,90 @@ func c13UncleHeaderStub(a *Aquahash, chain consensus.ChainReader, header, parent
 	return nil
 }
 
+// c13UncleNets: schedules of the uncle harness (indices of c13Builtin): main
+// network, public testnet, test suite (HF5 at 22800 / 5 / 5), testnet2 (HF5 from genesis).
+var c13UncleNets = []int{0, 2, 4, 1}
+
+// c13UncleHeights: block heights explored per schedule: one below, at and one
+// above HF5, and one far above every fork.
+func c13UncleHeights(sched *c13Sched) []uint64 {
+	hs := []uint64{50000}
+	if h := sched.hf[5]; h != nil && h.Sign() > 0 {
+		hs = append([]uint64{h.Uint64() - 1, h.Uint64(), h.Uint64() + 1}, hs...)
+	}
+	return hs
+}
+
 // VerifC13_Uncles: VerifyUncles(block) == nil <=> at most 2 uncles (1 from
-// HF5), each one not yet included, not an ancestor, not the block, child of
-// one of the 7 ancestors other than the block's parent, and header-valid.
+// HF5 on, fork block included), each one not yet included, not an ancestor,
+// not the block, child of one of the (up to) 7 ancestors other than the
+// block's parent, and header-valid.
+//
+// The structure (height, number of uncles, identity and parent of every uncle,
+// validity) is chosen by the solver.  Under the engine the block tree is
+// abstract (identity hashes, verifyHeader a recording stub); natively the same
+// structure is realised with real headers built in dependency order (real
+// hashes, difficulty from CalcDifficulty, fake-PoW seal) and the same
+// predicate is asserted on the real VerifyUncles.
 func VerifC13_Uncles() {
-	if !vs.Symbolic() {
-		return // depends on engine-only stubs (suite: no_native); nothing to run natively
+	cfg, sched := c13Builtin(c13UncleNets[vs.Choice("net", vs.Param("nets"))])
+	heights := c13UncleHeights(sched)
+	n := heights[vs.Choice("height", len(heights))]
+	// below the hard-coded historical exceptions (blocks <= 15008) only
+	// well-formed uncle sets are explored: the verdict hinges on the count
+	low := n <= 15008
+	nanc := vs.Param("ancestors") // generations reachable from the block (genesis may come first)
+	if uint64(nanc) > n {
+		nanc = int(n)
 	}
-	net := vs.Choice("net", vs.Param("nets"))
-	cfg, sched := c13Builtin(net)
-	// heights: above the hard-coded historical exceptions (blocks <= 15008); on
-	// the main network both sides of HF5 (22800)
-	n := []uint64{22799, 22800, 22801, 50000}[vs.Choice("height", 4)]
-	version := byte(1)
-	if sched.on(5, new(big.Int).SetUint64(n)) {
-		version = 2
+	has20, has21 := nanc >= 4, nanc >= 6 // ancestors 2 and 4 carry an uncle (ids 20, 21: children of ancestors 4 and 6)
+	kmax := vs.Param("maxuncles")
+	if low {
+		kmax = 3
 	}
-	tree := &c13Tree{cfg: cfg}
-	mk := func(id, parent byte, num uint64, uncles []*types.Header) *types.Block {
-		h := &types.Header{Root: c13ID(id), ParentHash: c13ID(parent), Number: new(big.Int).SetUint64(num),
-			Time: new(big.Int), Difficulty: new(big.Int), Version: params.HeaderVersion(version)}
-		return types.NewBlockWithHeader(h).WithBody(nil, uncles)
-	}
-	uncleHdr := func(id, parent common.Hash, gasUsed uint64) *types.Header {
-		return &types.Header{Root: id, ParentHash: parent, Number: new(big.Int).SetUint64(n - 1),
-			Time: new(big.Int), Difficulty: new(big.Int), GasUsed: gasUsed}
-	}
-	// ancestors 1..nanc (ids = generation), two of them carry an uncle (ids 20, 21)
-	nanc := vs.Param("ancestors")
-	for g := 1; g <= nanc; g++ {
-		var us []*types.Header
-		if g == 2 {
-			us = []*types.Header{uncleHdr(c13ID(20), c13ID(4), 0)}
-		}
-		if g == 4 {
-			us = []*types.Header{uncleHdr(c13ID(21), c13ID(6), 0)}
-		}
-		tree.blocks = append(tree.blocks, mk(byte(g), byte(g+1), n-uint64(g), us))
-	}
-	// candidate uncles: identity and parent are symbolic ids
-	k := vs.Choice("uncles", vs.Param("maxuncles")+1)
-	var uncles []*types.Header
-	ids := make([]byte, k)
-	pids := make([]byte, k)
-	valid := make([]bool, k)
+	k := vs.Choice("uncles", kmax+1)
+	ids, pids, valid := make([]byte, k), make([]byte, k), make([]bool, k)
 	for j := 0; j < k; j++ {
 		ids[j], pids[j] = vs.U8("uncle"), vs.U8("uncleparent")
 		valid[j] = vs.Bool("unclevalid")
 		vs.Assume(pids[j] != 9) // an uncle cannot name the including block as parent (hash circularity)
-		g := uint64(0)
-		if !valid[j] {
-			g = 1
-		}
-		uncles = append(uncles, uncleHdr(c13ID(ids[j]), c13ID(pids[j]), g))
 	}
-	block := mk(9, 1, n, uncles)
-	engine := &Aquahash{config: &Config{PowMode: ModeNormal}}
-	c13UncleCalls = nil
-
-	err := engine.VerifyUncles(tree, block)
-
+	// reference predicate
 	max := 2
 	if sched.on(5, new(big.Int).SetUint64(n)) {
 		max = 1
 	}
 	ok := k <= max
 	for j := 0; j < k; j++ {
-		fresh := ids[j] != 20 && ids[j] != 21 && ids[j] != 9
+		fresh := !(has20 && ids[j] == 20) && !(has21 && ids[j] == 21) && ids[j] != 9
 		for i := 0; i < j; i++ {
 			fresh = fresh && ids[j] != ids[i]
 		}
 		notAncestor := !(ids[j] >= 1 && int(ids[j]) <= nanc)
 		recent := pids[j] >= 2 && int(pids[j]) <= nanc // child of an ancestor other than the block's parent
-		ok = ok && fresh && notAncestor && recent && valid[j]
+		wellFormed := fresh && notAncestor && recent && valid[j]
+		if low {
+			vs.Assume(wellFormed)
+		}
+		ok = ok && wellFormed
+	}
+
+	var err error
+	if vs.Symbolic() {
+		err = c13UnclesAbstract(cfg, n, nanc, has20, has21, ids, pids, valid)
+	} else {
+		var constructible bool
+		if err, constructible = c13UnclesReal(cfg, n, nanc, has20, has21, ids, pids, valid); !constructible {
+			return
+		}
 	}
 	if err == nil {
 		vs.Reach("accept")
 	} else {
 		vs.Reach("reject")
+	}
+	if n == heights[0] || (len(heights) > 1 && n == heights[1]) {
+		vs.Reach("fork-boundary")
 	}
 	vs.Assert((err == nil) == ok, "uncles accepted iff count, recency, uniqueness, non-ancestry and header validity hold")
 	for _, c := range c13UncleCalls {
@@ -505,6 +511,145 @@ func VerifC13_Uncles() {
 		vs.Assert(c.parent != nil && c.parent.Root == c.uncle.ParentHash, "uncle verified against the ancestor it names as parent")
 		vs.Assert(c.grandparent == nil || c.grandparent.Root == c.parent.ParentHash, "grandparent is the parent's parent")
 	}
+}
+
+// c13UnclesAbstract: the block tree with identity hashes (engine side).
+func c13UnclesAbstract(cfg *params.ChainConfig, n uint64, nanc int, has20, has21 bool, ids, pids []byte, valid []bool) error {
+	version := cfg.GetBlockVersion(new(big.Int).SetUint64(n))
+	tree := &c13Tree{cfg: cfg}
+	mk := func(id, parent byte, num uint64, uncles []*types.Header) *types.Block {
+		h := &types.Header{Root: c13ID(id), ParentHash: c13ID(parent), Number: new(big.Int).SetUint64(num),
+			Time: new(big.Int), Difficulty: new(big.Int), Version: version}
+		return types.NewBlockWithHeader(h).WithBody(nil, uncles)
+	}
+	uncleHdr := func(id, parent common.Hash, gasUsed uint64) *types.Header {
+		return &types.Header{Root: id, ParentHash: parent, Number: new(big.Int).SetUint64(n - 1),
+			Time: new(big.Int), Difficulty: new(big.Int), GasUsed: gasUsed}
+	}
+	for g := 1; g <= nanc; g++ {
+		var us []*types.Header
+		if g == 2 && has20 {
+			us = []*types.Header{uncleHdr(c13ID(20), c13ID(4), 0)}
+		}
+		if g == 4 && has21 {
+			us = []*types.Header{uncleHdr(c13ID(21), c13ID(6), 0)}
+		}
+		tree.blocks = append(tree.blocks, mk(byte(g), byte(g+1), n-uint64(g), us))
+	}
+	var uncles []*types.Header
+	for j := range ids {
+		g := uint64(0)
+		if !valid[j] {
+			g = 1 // the verifyHeader stub rejects headers with GasUsed != 0
+		}
+		uncles = append(uncles, uncleHdr(c13ID(ids[j]), c13ID(pids[j]), g))
+	}
+	block := mk(9, 1, n, uncles)
+	engine := &Aquahash{config: &Config{PowMode: ModeNormal}}
+	c13UncleCalls = nil
+	return engine.VerifyUncles(tree, block)
+}
+
+// c13RealChain: in-memory chain of real blocks (native side).
+type c13RealChain struct {
+	cfg    *params.ChainConfig
+	blocks map[common.Hash]*types.Block
+}
+
+func (c *c13RealChain) Config() *params.ChainConfig                 { return c.cfg }
+func (c *c13RealChain) GetContext() context.Context                 { return context.Background() }
+func (c *c13RealChain) CurrentHeader() *types.Header                { return nil }
+func (c *c13RealChain) GetHeaderByNumber(uint64) *types.Header      { return nil }
+func (c *c13RealChain) GetHeaderByHash(h common.Hash) *types.Header { return nil }
+func (c *c13RealChain) GetHeader(h common.Hash, n uint64) *types.Header {
+	if b := c.GetBlock(h, n); b != nil {
+		return b.Header()
+	}
+	return nil
+}
+func (c *c13RealChain) GetBlock(h common.Hash, n uint64) *types.Block {
+	if b := c.blocks[h]; b != nil && b.NumberU64() == n {
+		return b
+	}
+	return nil
+}
+
+// c13Child: a consensus-valid header on top of parent, made distinct by tag.
+func c13Child(cfg *params.ChainConfig, parent *types.Header, tag string) *types.Header {
+	num := new(big.Int).Add(parent.Number, c13b(1))
+	tm := new(big.Int).Add(parent.Time, c13b(10))
+	return &types.Header{ParentHash: parent.Hash(), Number: num, Time: tm, GasLimit: parent.GasLimit, Extra: []byte(tag),
+		Difficulty: CalcDifficulty(cfg, tm.Uint64(), parent, nil), Version: cfg.GetBlockVersion(num)}
+}
+
+// c13UnclesReal: the same structure with real headers (native side).  Reports
+// constructible == false for structures no real block can have (an uncle that
+// is the including block itself).
+func c13UnclesReal(cfg *params.ChainConfig, n uint64, nanc int, has20, has21 bool, ids, pids []byte, valid []bool) (err error, constructible bool) {
+	chain := &c13RealChain{cfg: cfg, blocks: map[common.Hash]*types.Block{}}
+	// oldest stored ancestor (generation nanc); its own parent is not stored
+	num := new(big.Int).SetUint64(n - uint64(nanc))
+	oldest := &types.Header{Number: num, Time: c13b(1000), GasLimit: params.GenesisGasLimit,
+		Difficulty: new(big.Int).Set(params.MinimumDifficultyHF3), Version: cfg.GetBlockVersion(num)}
+	if num.Sign() > 0 {
+		oldest.ParentHash = common.Hash{0xAA}
+	}
+	anc := make([]*types.Header, nanc+1) // anc[g]: generation g, anc[1] = the block's parent
+	var u20, u21 *types.Header
+	for g := nanc; g >= 1; g-- {
+		var hdr *types.Header
+		if g == nanc {
+			hdr = oldest
+		} else {
+			hdr = c13Child(cfg, anc[g+1], "main")
+		}
+		var us []*types.Header
+		if g == 2 && has20 {
+			u20 = c13Child(cfg, anc[4], "past-uncle-20")
+			us = []*types.Header{u20}
+		}
+		if g == 4 && has21 {
+			u21 = c13Child(cfg, anc[6], "past-uncle-21")
+			us = []*types.Header{u21}
+		}
+		b := types.NewBlock(hdr, nil, us, nil)
+		anc[g] = b.Header()
+		chain.blocks[b.Hash()] = b
+	}
+	var uncles []*types.Header
+	for j := range ids {
+		var u *types.Header
+		dup := -1
+		for i := 0; i < j; i++ {
+			if ids[i] == ids[j] {
+				dup = i
+			}
+		}
+		switch id := ids[j]; {
+		case dup >= 0:
+			u = types.CopyHeader(uncles[dup])
+		case id == 9:
+			return nil, false
+		case id >= 1 && int(id) <= nanc:
+			u = types.CopyHeader(anc[id])
+		case id == 20 && has20:
+			u = types.CopyHeader(u20)
+		case id == 21 && has21:
+			u = types.CopyHeader(u21)
+		case pids[j] >= 1 && int(pids[j]) <= nanc:
+			u = c13Child(cfg, anc[pids[j]], "uncle-"+string(rune('A'+j))+"-"+string(rune('a'+int(id)%26))+string(rune('a'+int(id)/26)))
+			if !valid[j] {
+				u.Difficulty = new(big.Int).Add(u.Difficulty, c13b(1)) // breaks the difficulty rule (fresh value: CalcDifficulty may return a shared parameter)
+			}
+		default: // parent unknown to the chain
+			u = &types.Header{ParentHash: common.Hash{0xEE, pids[j]}, Number: new(big.Int).SetUint64(n - 1), Time: c13b(2000),
+				GasLimit: params.GenesisGasLimit, Difficulty: c13b(1), Extra: []byte{id}, Version: cfg.GetBlockVersion(new(big.Int).SetUint64(n - 1))}
+		}
+		uncles = append(uncles, u)
+	}
+	block := types.NewBlock(c13Child(cfg, anc[1], "main"), nil, uncles, nil)
+	c13UncleCalls = nil
+	return NewFaker().VerifyUncles(chain, block), true
 }
 
 // ---------------------------------------------------------------------------
@@ -516,9 +661,6 @@ func VerifC13_Uncles() {
 // does when the preceding headers of the batch have been verified and stored
 // one by one.  verifyHeader itself is a recording stub (suite override).
 func VerifC13_BatchWorker() {
-	if !vs.Symbolic() {
-		return // depends on engine-only stubs (suite: no_native); nothing to run natively
-	}
 	cfg, _ := c13Builtin(0)
 	n0 := []uint64{1, 2, 3, 4, 1000}[vs.Choice("first", 5)]
 	L := vs.Param("batch")
@@ -531,6 +673,19 @@ func VerifC13_BatchWorker() {
 	// stored chain: the batch's parent (id 1) and grandparent (id 2) as far as
 	// they exist; mode 1: the parent is unknown; mode 2: the first header is already stored
 	mode := vs.Choice("chain", 3)
+	var seals []bool
+	for i := 0; i < L; i++ {
+		seals = append(seals, vs.Bool("seal"))
+	}
+	if mode == 1 {
+		vs.Assume(index == 0) // first failure is at index 0; later results are not compared
+	}
+	if !vs.Symbolic() {
+		// native: the same batch as real, consensus-valid headers on an in-memory
+		// chain (fake-PoW seal); only the verdicts can be compared
+		c13BatchReal(cfg, n0, L, index, mode, seals)
+		return
+	}
 	if mode != 1 {
 		base.blocks = append(base.blocks, mk(1, 2, n0-1))
 		if n0 >= 2 {
@@ -538,20 +693,15 @@ func VerifC13_BatchWorker() {
 		}
 	}
 	var headers []*types.Header
-	var seals []bool
 	for i := 0; i < L; i++ {
 		b := mk(byte(10+i), byte(10+i-1), n0+uint64(i))
 		if i == 0 {
 			b = mk(10, 1, n0)
 		}
 		headers = append(headers, b.Header())
-		seals = append(seals, vs.Bool("seal"))
 		if mode == 2 && i == 0 {
 			base.blocks = append(base.blocks, b)
 		}
-	}
-	if mode == 1 {
-		vs.Assume(index == 0) // first failure is at index 0; later results are not compared
 	}
 	engine := &Aquahash{config: &Config{PowMode: ModeNormal}}
 
@@ -646,4 +796,57 @@ func VerifC13_DifficultySchedules() {
 	want := sched.refDifficulty(bt, parent.Time, parent.Difficulty, parent.Number, gp != nil, gt, gd)
 	vs.Observe("difficulty", got)
 	vs.Assert(got.Cmp(want) == 0, "CalcDifficulty equals the scheduled formula")
+}
+
+// c13BatchReal: native side of VerifC13_BatchWorker.
+func c13BatchReal(cfg *params.ChainConfig, n0 uint64, L, index, mode int, seals []bool) {
+	base := &c13RealChain{cfg: cfg, blocks: map[common.Hash]*types.Block{}}
+	first := uint64(0) // oldest header built: the grandparent where it exists
+	if n0 >= 2 {
+		first = n0 - 2
+	}
+	num := new(big.Int).SetUint64(first)
+	cur := &types.Header{Number: num, Time: c13b(1000), GasLimit: params.GenesisGasLimit,
+		Difficulty: new(big.Int).Set(params.MinimumDifficultyHF3), Version: cfg.GetBlockVersion(num)}
+	if first > 0 {
+		cur.ParentHash = common.Hash{0xAA}
+	}
+	store := func(c *c13RealChain, h *types.Header) *types.Header {
+		b := types.NewBlock(h, nil, nil, nil)
+		c.blocks[b.Hash()] = b
+		return b.Header()
+	}
+	var chainHdrs []*types.Header // grandparent (if any), parent
+	cur = types.NewBlock(cur, nil, nil, nil).Header()
+	chainHdrs = append(chainHdrs, cur)
+	for cur.Number.Uint64() < n0-1 {
+		cur = types.NewBlock(c13Child(cfg, cur, "main"), nil, nil, nil).Header()
+		chainHdrs = append(chainHdrs, cur)
+	}
+	if mode != 1 {
+		for _, h := range chainHdrs {
+			store(base, h)
+		}
+	}
+	var headers []*types.Header
+	for i := 0; i < L; i++ {
+		cur = types.NewBlock(c13Child(cfg, cur, "main"), nil, nil, nil).Header()
+		headers = append(headers, cur)
+	}
+	if mode == 2 {
+		store(base, headers[0])
+	}
+	engine := NewFaker()
+	werr := engine.verifyHeaderWorker(base, headers, seals, index)
+	seq := &c13RealChain{cfg: cfg, blocks: map[common.Hash]*types.Block{}}
+	for k, b := range base.blocks {
+		seq.blocks[k] = b
+	}
+	for i := 0; i < index; i++ {
+		store(seq, headers[i])
+	}
+	serr := engine.VerifyHeader(seq, headers[index], seals[index])
+	vs.Assert((werr == nil) == (serr == nil), "batch worker and one-by-one verification agree on the verdict")
+	vs.Assert((werr == nil) == (mode != 1), "a valid contiguous batch on a known parent is accepted at every index; an unknown parent is reported")
+	vs.Reach("verified")
 }
